@@ -346,8 +346,9 @@ func (l *Lexer) readBlockString(tok *token.Token) {
 	tok.SetStart(l.input.InputPosition, l.input.TextPosition)
 	tok.TextPosition.CharStart -= 3
 
-	escaped := false
-	quoteCount := 0
+	// the literal of the token is the content without the white space that follows the opening
+	// and precedes the closing quotes; everything that is not white space is content,
+	// including quotes that do not close the string and the escape sequence \"""
 	whitespaceCount := 0
 	reachedFirstNonWhitespace := false
 	leadingWhitespaceToken := 0
@@ -356,42 +357,34 @@ func (l *Lexer) readBlockString(tok *token.Token) {
 		next := l.readRune()
 		switch next {
 		case runes.SPACE, runes.TAB, runes.CARRIAGERETURN, runes.LINETERMINATOR:
-			escaped = false
-			quoteCount = 0
 			whitespaceCount++
+			continue
 		case runes.EOF:
 			tok.SetEnd(l.input.InputPosition, l.input.TextPosition)
 			tok.Literal.Start += uint32(leadingWhitespaceToken)
 			tok.Literal.End -= uint32(whitespaceCount)
 			return
 		case runes.QUOTE:
-			if escaped {
-				escaped = !escaped
-				continue
-			}
-
-			quoteCount++
-
-			if quoteCount == 3 {
+			if l.peekEquals(false, runes.QUOTE, runes.QUOTE) {
+				// the first three consecutive quotes close the string
+				l.swallowAmount(2)
 				tok.SetEnd(l.input.InputPosition-3, l.input.TextPosition)
 				tok.Literal.Start += uint32(leadingWhitespaceToken)
 				tok.Literal.End -= uint32(whitespaceCount)
 				return
 			}
-
 		case runes.BACKSLASH:
-			escaped = !escaped
-			quoteCount = 0
-			whitespaceCount = 0
-		default:
-			if !reachedFirstNonWhitespace {
-				reachedFirstNonWhitespace = true
-				leadingWhitespaceToken = whitespaceCount
+			if l.peekEquals(false, runes.QUOTE, runes.QUOTE, runes.QUOTE) {
+				// \""" is the only escape sequence of block strings, its quotes do not close the string
+				l.swallowAmount(3)
 			}
-			escaped = false
-			quoteCount = 0
-			whitespaceCount = 0
 		}
+
+		if !reachedFirstNonWhitespace {
+			reachedFirstNonWhitespace = true
+			leadingWhitespaceToken = whitespaceCount
+		}
+		whitespaceCount = 0
 	}
 }
 
